@@ -1,9 +1,71 @@
-(* Props/C18.v — placeholder until the proofs land; statements are added with their proofs. *)
-From RN Require Import Base.Bytes Model.StyleDef Model.CaseModel Gen.GenStyles Gen.GenAcronyms.
+(* Props/C18.v — Case conversion is a consistent algebra.  Statements only.
+   acr is ANY acronym table whose entries have >= 2 bytes, upper-case letters / digits only (wf_acr);
+   the table of the current source satisfies it (C18_source_table_wf).  A neutral word has >= 3
+   lower-case letters, is not itself a table entry and cannot be split by the acronym look-ahead. *)
+From RN Require Import Base.Bytes Model.StyleDef Model.CaseModel Model.CaseSpec Gen.GenStyles Gen.GenAcronyms.
+From RN Require Proofs.CaseP.
+
+Theorem C18_roundtrip : forall acr S ws,
+  wf_acr acr = true -> visible S = true -> ws <> [] -> all_neutral acr ws = true ->
+  map lower (tokens acr (to_style acr ws S)) = ws.
+Proof. exact CaseP.C18_roundtrip. Qed.
+
+Theorem C18_detect : forall acr S ws,
+  wf_acr acr = true -> visible S = true -> (2 <= length ws)%nat -> all_neutral acr ws = true ->
+  detect_style acr (to_style acr ws S) = Some S.
+Proof. exact CaseP.C18_detect. Qed.
+
+Theorem C18_idempotent : forall acr S ws,
+  wf_acr acr = true -> ws <> [] -> all_neutral acr ws = true ->
+  to_style acr (tokens acr (to_style acr ws S)) S = to_style acr ws S.
+Proof. exact CaseP.C18_idempotent. Qed.
+
+Theorem C18_render_style_injective : forall acr S S' ws,
+  wf_acr acr = true -> visible S = true -> (2 <= length ws)%nat -> all_neutral acr ws = true ->
+  to_style acr ws S = to_style acr ws S' -> S = S'.
+Proof. exact CaseP.C18_render_style_injective. Qed.
+
+(* the variant table (plural variants off; the pluraliser is an oracle) maps the search term in each
+   enabled visible style to the replacement in that same style, whatever visible style the two terms
+   were typed in *)
+Theorem C18_variant_table_core : forall acr defaults S0 S1 sw rw styles S amb,
+  wf_acr acr = true -> visible S0 = true -> visible S1 = true -> visible S = true ->
+  (2 <= length sw)%nat -> rw <> [] -> all_neutral acr sw = true -> all_neutral acr rw = true ->
+  In S styles ->
+  amap_get (to_style acr sw S)
+    (variant_map_core acr defaults [] [] false amb (to_style acr sw S0) (to_style acr rw S1) (Some styles))
+  = Some (to_style acr rw S).
+Proof. exact CaseP.C18_variant_table_core. Qed.
+
+Theorem C18_tokens_total : forall acr s, parse_to_tokens acr s <> None.
+Proof. exact CaseP.tokens_total. Qed.
+
+(* the table in acronym.rs today satisfies the side condition *)
+Theorem C18_source_table_wf : wf_acr gen_acronyms = true.
+Proof. exact CaseP.gen_acronyms_wf. Qed.
 
 Theorem C18_all_styles_complete : length gen_all_styles = 14%nat /\ NoDup gen_all_styles.
 Proof.
   split; [reflexivity|].
   repeat (constructor; [cbn; intuition discriminate|]). constructor.
 Qed.
-Print Assumptions C18_all_styles_complete.
+
+(* non-vacuity: words that exercise the acronym look-ahead (api-ary, ide-al, id-ex...) are neutral *)
+Example C18_neutral_examples :
+  all_neutral gen_acronyms
+    [[97;112;105;97;114;121]; [105;100;101;97;108]; [105;110;100;101;120]; [119;105;100;103;101;116]] = true.
+Proof. vm_compute. reflexivity. Qed.
+
+(* two-letter words are outside "neutral" for a reason: typed in upper case they are kept as if
+   they were acronyms (capitalize_first keeps <= 2 upper-case bytes) *)
+Example C18_two_letter_upper_kept :
+  to_style gen_acronyms (tokens gen_acronyms [71;79;95;85;80]) Pascal = [71;79;85;80].   (* GO_UP -> GOUP *)
+Proof. vm_compute. reflexivity. Qed.
+
+Print Assumptions C18_roundtrip.
+Print Assumptions C18_detect.
+Print Assumptions C18_idempotent.
+Print Assumptions C18_render_style_injective.
+Print Assumptions C18_variant_table_core.
+Print Assumptions C18_tokens_total.
+Print Assumptions C18_source_table_wf.
